@@ -43,6 +43,8 @@ import json
 import os
 import re
 import shutil
+import subprocess
+import sys
 import time
 
 import vlib
@@ -265,6 +267,273 @@ def selftest_c20(wd, vectors):
         raise vlib.ToolError("selftest: a corrupted presentation was not noticed")
     log(f"[selftest] 3 corrupted CanonIds -> {a} violation(s), one flipped `required` in {hit} -> {b} violation(s): the binding binds")
     return dict(corrupted_canon_ids_noticed=a, corrupted_presentation_noticed=b)
+
+
+# ------------------------------------------------------------------------------------------------
+# C20, derive-macro types with partly implicit ids (SchemaDerive.tla / SchemaDerive_MC.tla)
+DERIVE_TIERS = {"quick": dict(cfg="SchemaDerive_MC.cfg", tlc_timeout=600, workers=4, build_timeout=1500),
+                "thorough": dict(cfg="SchemaDerive_MC_thorough.cfg", tlc_timeout=1500, workers=6, build_timeout=2400)}
+DERIVE_THEOREMS = ["Inv_Rule", "Inv_WFD", "Inv_Explicit", "Inv_Classes"]
+DERIVE_RUST_TYPES = {"u8": "u8", "u32": "u32", "bool": "bool", "string": "String"}
+
+DERIVE_CARGO_TOML = """# generated by /verif/lib/schema_checks.py (C20, derive corpus) -- never committed
+[package]
+name = "@NAME@"
+version = "0.0.0"
+edition = "2021"
+
+[workspace]
+
+[[bin]]
+name = "@NAME@"
+path = "src/main.rs"
+
+[dependencies]
+schema-driver = { path = "/verif/harness/crates/schema-driver" }
+
+[dependencies.aldrin-core]
+path = "/repo/core"
+features = ["derive", "introspection"]
+
+# the dependencies are built as in /verif/harness (shared target directory); the corpus itself is not optimised
+[profile.dev]
+opt-level = 0
+debug = false
+debug-assertions = true
+overflow-checks = true
+incremental = false
+
+[profile.dev.package."*"]
+opt-level = 2
+"""
+
+DERIVE_MAIN_RS = """// generated by /verif/lib/schema_checks.py (C20, derive corpus) -- never committed
+#![allow(dead_code)]
+mod corpus;
+
+fn main() {
+    schema_driver::derive_rt::main(&corpus::entries());
+}
+"""
+
+
+def derive_model_check(tier, seed, vectors):
+    cfg = DERIVE_TIERS[tier]
+    res = vlib.tlc_mc("SchemaDerive_MC", cfg["cfg"], workers=cfg["workers"], timeout=cfg["tlc_timeout"],
+                      extra_env=dict(DVECTORS=vectors, SEED=str(seed)), heap="4g")
+    if not res["ok"]:
+        print(res["raw"][-5000:])
+        raise vlib.ToolError(f"the specification fails its own theorems ({cfg['cfg']}): {res['violation']}")
+    m = re.search(r'"VECTORS-WRITTEN",\s*(\d+),\s*(\d+),\s*(\d+),\s*(\d+)', res["out"])
+    if m is None or not os.path.exists(vectors):
+        raise vlib.ToolError("TLC did not write the derive vectors")
+    n, classes, patterns, discriminating = (int(x) for x in m.groups())
+    log(f"[tlc] SchemaDerive_MC/{cfg['cfg']}: {res['distinct']} states, {patterns} id patterns ({discriminating} on which the derive rule and "
+        f"numbering by position differ) x 3 kinds = {n} derived types in {classes} CanonId classes, {res['wall_s']}s")
+    return res, dict(cases=n, classes=classes, patterns=patterns, discriminating_patterns=discriminating)
+
+
+def derive_type_source(n, v):
+    """The Rust source of one derived type: a pure transcription of the pattern - `#[aldrin(id = N)]` exactly where the
+    pattern has an explicit id; names, types and `optional` as the specification's definition says."""
+    kind, pat, d = v["kind"], v["pat"], v["def"]
+    mem = d["mem"]
+    if len(pat) != len(mem):
+        raise vlib.ToolError(f"{v['id']}: pattern and definition disagree")
+
+    def attr(j, optional=False):
+        parts = ([f"id = {pat[j]}"] if pat[j] >= 0 else []) + (["optional"] if optional else [])
+        return f"#[aldrin({', '.join(parts)})] " if parts else ""
+
+    def rust_ty(t):
+        if t["k"] not in DERIVE_RUST_TYPES:
+            raise vlib.ToolError(f"{v['id']}: member type {t['k']} is not supported by the derive corpus")
+        return DERIVE_RUST_TYPES[t["k"]]
+
+    def literal(t, j):
+        return {"u8": f"{11 + j}", "u32": f"{11 + j}"}[t["k"]]
+
+    name = d["name"]
+    out = [f"pub mod t{n:04} {{",
+           "    use aldrin_core::{Deserialize, Introspectable, PrimaryTag, RefType, Serialize, Tag};",
+           "",
+           f"    // {v['id']}: expected ids {v['ids']}",
+           "    #[derive(Clone, PartialEq, Tag, PrimaryTag, RefType, Serialize, Deserialize, Introspectable)]",
+           f"    #[aldrin(schema = \"{d['schema']}\", ref_type)]"]
+    if kind == "enum":
+        if d["k"] != "enum":
+            raise vlib.ToolError(f"{v['id']}: not an enum")
+        out.append(f"    pub enum {name} {{")
+        values = []
+        for j, m in enumerate(mem):
+            if m["ty"]:
+                out.append(f"        {attr(j)}{m['name']}({rust_ty(m['ty'][0])}),")
+                values.append(f"{name}::{m['name']}({literal(m['ty'][0], j)})")
+            else:
+                out.append(f"        {attr(j)}{m['name']},")
+                values.append(f"{name}::{m['name']}")
+        out.append("    }")
+        out.append("")
+        out.append(f"    pub fn values() -> Vec<{name}> {{")
+        out.append(f"        vec![{', '.join(values)}]")
+        out.append("    }")
+        entry = f"Entry {{ id: {json.dumps(v['id'])}, observe: |ids| observe_enum::<t{n:04}::{name}>(t{n:04}::values(), ids) }},"
+    elif kind in ("struct", "tstruct"):
+        if d["k"] != "struct":
+            raise vlib.ToolError(f"{v['id']}: not a struct")
+        named = kind == "struct"
+        out.append(f"    pub struct {name} {{" if named else f"    pub struct {name}(")
+        values = []
+        for j, m in enumerate(mem):
+            ty = rust_ty(m["ty"]) if m["req"] else f"Option<{rust_ty(m['ty'])}>"
+            if named:
+                out.append(f"        {attr(j, not m['req'])}pub {m['name']}: {ty},")
+            else:
+                if m["name"] != f"field{j}":
+                    raise vlib.ToolError(f"{v['id']}: a tuple struct's fields are called field<index>")
+                out.append(f"        {attr(j, not m['req'])}pub {ty},")
+            lit = literal(m["ty"], j) if m["req"] else f"Some({literal(m['ty'], j)})"
+            values.append(f"{m['name']}: {lit}" if named else lit)
+        out.append("    }" if named else "    );")
+        out.append("")
+        out.append(f"    pub fn value() -> {name} {{")
+        out.append(f"        {name} {{ {', '.join(values)} }}" if named else f"        {name}({', '.join(values)})")
+        out.append("    }")
+        entry = f"Entry {{ id: {json.dumps(v['id'])}, observe: |ids| observe_struct::<t{n:04}::{name}>(t{n:04}::value(), {len(mem)}, ids) }},"
+    else:
+        raise vlib.ToolError(f"{v['id']}: unknown kind {kind}")
+    out.append("}")
+    return "\n".join(out), entry
+
+
+def write_if_changed(path, text):
+    try:
+        if open(path).read() == text:
+            return False
+    except OSError:
+        pass
+    os.makedirs(os.path.dirname(path), exist_ok=True)
+    with open(path, "w") as f:
+        f.write(text)
+    return True
+
+
+def derive_generate(vecs, crate_dir, pkg):
+    mods, entries = [], []
+    for n, v in enumerate(vecs):
+        src, entry = derive_type_source(n, v)
+        mods.append(src)
+        entries.append("        " + entry)
+    corpus = ("// generated by /verif/lib/schema_checks.py from the patterns TLC printed (SchemaDerive_MC.tla) -- never committed\n"
+              "use schema_driver::derive_rt::{observe_enum, observe_struct, Entry};\n\n" + "\n\n".join(mods)
+              + "\n\npub fn entries() -> Vec<Entry> {\n    vec![\n" + "\n".join(entries) + "\n    ]\n}\n")
+    changed = write_if_changed(os.path.join(crate_dir, "Cargo.toml"), DERIVE_CARGO_TOML.replace("@NAME@", pkg))
+    changed |= write_if_changed(os.path.join(crate_dir, "src", "main.rs"), DERIVE_MAIN_RS)
+    changed |= write_if_changed(os.path.join(crate_dir, "src", "corpus.rs"), corpus)
+    lock = os.path.join(crate_dir, "Cargo.lock")
+    if not os.path.exists(lock):
+        shutil.copy(os.path.join(vlib.HARNESS, "Cargo.lock"), lock)
+    return changed
+
+
+def derive_build(crate_dir, pkg, timeout):
+    """cargo build of the generated crate in the harness's target directory (path deps on /repo => its working tree)."""
+    env = dict(os.environ, CARGO_NET_OFFLINE="true", CARGO_TERM_COLOR="never", CARGO_TARGET_DIR=os.path.join(vlib.HARNESS, "target"))
+    t0 = time.time()
+    try:
+        p = subprocess.run(["cargo", "build", "--offline"], cwd=crate_dir, env=env, stdout=subprocess.PIPE, stderr=subprocess.STDOUT,
+                           text=True, timeout=timeout)
+    except subprocess.TimeoutExpired:
+        raise vlib.ToolError("cargo build of the derive corpus crate timed out")
+    if p.returncode != 0:
+        errs = [l for l in p.stdout.splitlines() if l.startswith("error")]
+        sys.stdout.write(p.stdout[-5000:] + "\n")
+        raise vlib.ToolError(f"the derive corpus crate does not build ({len(errs)} error line(s)): rustc rejecting derived code is not "
+                             "a statement about type ids")
+    return round(time.time() - t0, 1)
+
+
+def derive_run(pkg, vectors, extra=()):
+    """Runs the corpus binary; a crash of the process is data about the derived code (-> D1)."""
+    p = subprocess.run([os.path.join(vlib.TARGET_BIN, pkg), "run", "--vectors", vectors] + [str(a) for a in extra],
+                       stdout=subprocess.PIPE, stderr=subprocess.PIPE, text=True, timeout=1500)
+    lines = [l for l in p.stdout.strip().splitlines() if l.strip()]
+    try:
+        summ = json.loads(lines[-1])
+    except Exception:
+        summ = None
+    if summ is not None and "tool_error" in summ:
+        raise vlib.ToolError("derive corpus: " + str(summ["tool_error"])[:400])
+    if p.returncode != 0 or summ is None:
+        return None, dict(returncode=p.returncode, stderr_tail=p.stderr[-1500:])
+    return summ, None
+
+
+def derive_pipeline(verdict, vecs, wd, pkg, crate_dir, tier, seed, build_timeout):
+    """vectors -> generated crate -> rustc -> observations -> decisions.  Returns (summary, drift count, build seconds)."""
+    vectors = os.path.join(wd, "derive-vectors.ndjson")
+    with open(vectors, "w") as f:
+        f.write("\n".join(json.dumps(v) for v in vecs) + "\n")
+    changed = derive_generate(vecs, crate_dir, pkg)
+    build_s = derive_build(crate_dir, pkg, build_timeout)
+    t1 = time.time()
+    s, crash = derive_run(pkg, vectors)
+    if crash is not None:
+        verdict.violation("D1 the process running the derived types died (abort / stack overflow / fault)",
+                          dict(case=dict(derive=True, cases=vecs[:40], crash=crash), seed=seed, tier=tier))
+        return None, 0, build_s
+    log(f"[derive] {s['cases']} derived types {s['by_kind']} ({s['items']} variants / fields) compiled by rustc against /repo "
+        f"({'source changed, ' if changed else 'source unchanged, '}cargo {build_s}s) and observed: wire ids = layout ids = expected ids on "
+        f"{s['agreeing']}, {s['discriminating']} types on which numbering by position would differ, {s['classes']} CanonId classes, "
+        f"{s['distinct_type_ids']} distinct real ids, {s['checks']} comparisons, {time.time() - t1:.1f}s")
+    if s["cases"] != len(vecs):
+        raise vlib.ToolError(f"derive corpus read {s['cases']} cases of {len(vecs)}")
+    drift = report("C20", verdict, s, seed, tier)
+    return s, drift, build_s
+
+
+def selftest_derive(pkg, wd, n_cases):
+    """A falsified expected assignment (and with it the expected description) must be noticed."""
+    vectors = os.path.join(wd, "derive-vectors.ndjson")
+    s, crash = derive_run(pkg, vectors, ["--corrupt", 3])
+    if crash is not None or s is None:
+        raise vlib.ToolError("selftest: the derive corpus died")
+    a = sum(n for why, n in s["drifts_by_why"].items() if "not the specification's assignment" in why)
+    b = sum(n for why, n in s["violations_by_why"].items() if why.startswith("D4"))
+    if s["corrupted"] != 3 or a < 3 or b < 1:
+        raise vlib.ToolError(f"selftest: corrupted expected id assignments not noticed ({s['drifts_by_why']}, {s['violations_by_why']})")
+    log(f"[selftest] 3 falsified expected id assignments -> {a} x 'wire ids are not the specification's assignment', {b} x D4 "
+        "(class disagreement): the binding binds")
+    return dict(corrupted_assignments_noticed=a, corrupted_classes_noticed=b)
+
+
+def run_derive(verdict, tier, seed, wd):
+    """The whole derive leg of C20.  Returns (coverage dict, drift count, TLC result)."""
+    cfg = DERIVE_TIERS[tier]
+    dv = os.path.join(wd, "derive-tlc.ndjson")
+    mc, counts = derive_model_check(tier, seed, dv)
+    vecs = [json.loads(l) for l in open(dv) if l.strip()]
+    if len(vecs) != counts["cases"]:
+        raise vlib.ToolError(f"TLC wrote {len(vecs)} derive vectors, announced {counts['cases']}")
+    pkg = f"c20-derive-corpus-{tier}-s{abs(int(seed))}"
+    crate_dir = os.path.join(vlib.workdir("c20-derive"), pkg)
+    s, drift, build_s = derive_pipeline(verdict, vecs, wd, pkg, crate_dir, tier, seed, cfg["build_timeout"])
+    cov = dict(derive_tlc_config=cfg["cfg"], derive_theorems=DERIVE_THEOREMS, derive_states=mc["distinct"], derive_transitions=mc["generated"],
+               derive_id_patterns=counts["patterns"], derive_patterns_discriminating_rule_from_position=counts["discriminating_patterns"],
+               derive_types_enumerated=counts["cases"], derive_build_s=build_s)
+    if s is None:
+        return cov, drift, mc, dict(inconclusive="the corpus process died")
+    cov.update(derive_types_compiled=s["cases"], derive_types_by_kind=s["by_kind"], derive_items=s["items"], derive_checks=s["checks"],
+               derive_types_agreeing=s["agreeing"], derive_types_discriminating=s["discriminating"], derive_canon_id_classes=s["classes"],
+               derive_distinct_real_type_ids=s["distinct_type_ids"], derive_samples=s.get("samples", []))
+    try:
+        st = selftest_derive(pkg, wd, len(vecs))
+    except (vlib.ToolError, KeyError, IndexError) as e:
+        if verdict.violations == 0 and drift == 0:
+            raise vlib.ToolError(f"selftest failed: {e!r}")
+        st = dict(inconclusive=repr(e))
+        log(f"NOTE derive selftest inconclusive on a non-conforming tree: {e!r}")
+    return cov, drift, mc, st
 
 
 def run_c20(prop, tier, seed):
